@@ -1,4 +1,5 @@
 import Adsb.TrackerF
+import Adsb.Theorems.C13
 import Mathlib.Analysis.SpecialFunctions.Trigonometric.Inverse
 import Mathlib.Analysis.SpecialFunctions.Complex.Arg
 import Mathlib.Tactic.Linarith
@@ -166,5 +167,32 @@ example : hav (10, 20) (11, 20) = 6371 * (π / 180) := by
     rw [hc, Real.cos_sub]
     linear_combination (cos (10 * (π / 180)) * cos (11 * (π / 180))) * Real.sin_sq_add_cos_sq (20 * (π / 180))
   rw [this, Real.arccos_cos (by positivity) (by nlinarith)]
+
+/-! ## the plausibility test of the tracker, in great-circle terms -/
+
+open Classical in
+/-- the tracker's geometry over the reals: receiver `rx`, maximum range `range` in km; positions are `(latitude, longitude)` in degrees.
+The CPR pairing stays a parameter. -/
+noncomputable def realGeo (getPos : Alt → Alt → Option (ℝ × ℝ)) (rx : ℝ × ℝ) (range : ℝ) : Geo (ℝ × ℝ) ℝ :=
+  { getPos := getPos, rxDist := fun p => hav rx p, dist := fun a b => hav a b,
+    outOfRange := fun d => decide (d > range), jump := fun d => decide (d > (Gen.maxAircraftDistance : ℝ)),
+    peq := fun a b => decide (a = b), deq := fun a b => decide (a = b) }
+
+/-- **a candidate position passes the tracker's test exactly when it lies within the configured range of the receiver and within 100 km
+of the previously published position, both measured along the great circle on a sphere of radius 6371 km** -/
+theorem plausible_iff_great_circle (getPos : Alt → Alt → Option (ℝ × ℝ)) (rx : ℝ × ℝ) (range : ℝ) (cur : Option (ℝ × ℝ)) (p : ℝ × ℝ)
+    (hrx : |rx.1| ≤ 90) (hp : |p.1| ≤ 90) (hc : ∀ c, cur = some c → |c.1| ≤ 90) :
+    C13.plausible (realGeo getPos rx range) cur p = true ↔
+      greatCircle rx p ≤ range ∧ ∀ c, cur = some c → greatCircle c p ≤ 100 := by
+  unfold C13.plausible realGeo
+  simp only [Bool.and_eq_true, Bool.not_eq_true', decide_eq_false_iff_not, not_lt]
+  rw [haversine_is_great_circle rx p hrx hp]
+  have h100 : ((Gen.maxAircraftDistance : ℕ) : ℝ) = 100 := by norm_num [Gen.maxAircraftDistance]
+  cases cur with
+  | none => simp
+  | some c =>
+    have := hc c rfl
+    simp only [Bool.not_eq_true', decide_eq_false_iff_not, not_lt, Option.some.injEq, forall_eq']
+    rw [haversine_is_great_circle c p this hp, h100]
 
 end Adsb.C13b
